@@ -86,6 +86,12 @@ def run(repo, rep, tier):
     _scope_rule(repo, rep)
     L.innermost_rule(repo, rep, "R05.7", ("chameleon.compiler.Compiler",),
                      only=("_scopes", "_aliases"))
+    # a tal:define'd variable named 'error' is still itself after an
+    # on-error element inside its element has handled a failure (C13 owns
+    # the handler's shape)
+    from . import c13 as _c13
+    L.borrow(repo, rep, "R05.1", "C13", _c13.error_variable_scope,
+             ("error-variable-scoped", "generator-consumed"), minimum=2)
     L.state_rule(repo, rep)
 
 
